@@ -528,6 +528,78 @@ def case_bu_dense(rng):
     return p.lines() + lines
 
 
+def case_bu_chain(rng):
+    """C03/C04: chains C1 <- C2 <- ... <- Cd above a changing source, and switch tasks that newly require (or stop
+    requiring) a chain node when their switch source flips in the SAME batch of changes: a re-executed task requires an
+    existing task whose affected dependency lies two or more levels below it (require_scheduled_now has to run the
+    levels in between as they become scheduled); observers above the switch tasks; optional generated resource."""
+    d = rng.randint(2, 4)
+    ns = rng.randint(1, 3)
+    obs = rng.random() < 0.5
+    A = rng.choice([1, 101])
+    W = rng.sample([2, 102, 3, 103, 4], ns)
+    B = 5                                     # a second source some chain nodes read
+    first = ns + (1 if obs else 0) + 1
+    chain = list(range(first, first + d))
+    gen = rng.random() < 0.3
+    G = rng.choice([10, 110])
+    oc = lambda: rng.choice([0, 0, 0, 0, 1, 4, 5])
+    rc = lambda: rng.choice([0, 0, 0, 0, 1])
+    lines, t = [], 1
+    sw_tasks = []
+    if obs:
+        t += 1
+    for j in range(ns):
+        x = rng.choice(chain)
+        val = rng.randint(0, 1)
+        then = f"req {x} {oc()} ret + v 1 k {10 * (j + 1)}"
+        if rng.random() < 0.3 and len(chain) > 1:
+            y = rng.choice([c for c in chain if c != x])
+            then = f"req {x} {oc()} req {y} {oc()} ret + v 1 v 2"
+        els = f"ret k {j}" if rng.random() < 0.7 else f"req {rng.choice(chain)} {oc()} ret v 1"
+        lines.append(f"task {t} read {W[j]} 0 if = v 0 k {val} {then} {els}")
+        sw_tasks.append(t); t += 1
+    if obs:
+        reqs = rng.sample(sw_tasks, min(len(sw_tasks), rng.randint(1, 2)))
+        body = " ".join(f"req {u} {oc()}" for u in reqs)
+        ret = "v 0" if len(reqs) == 1 else "+ v 0 v 1"
+        lines.insert(0, f"task 1 {body} ret {ret}")
+    for i, c in enumerate(chain):
+        last = i == d - 1
+        if last:
+            if gen: lines.append(f"task {c} read {A} 0 write {G} 0 some + v 0 k 1 ret % v 0")
+            else: lines.append(f"task {c} read {A} {rc()} ret " + rng.choice(["v 0", "+ v 0 k 1", "% v 0"]))
+        else:
+            nxt = chain[i + 1]
+            r = rng.random()
+            if gen and i == d - 2:
+                lines.append(f"task {c} req {nxt} {oc()} read {G} 0 ret + v 0 v 1")
+            elif r < 0.25:
+                lines.append(f"task {c} read {B} {rc()} req {nxt} {oc()} ret + v 0 v 1")
+            elif r < 0.4:
+                lines.append(f"task {c} req {nxt} {oc()} ret % v 0")
+            else:
+                lines.append(f"task {c} req {nxt} {oc()} ret + v 0 k {i + 1}")
+    n = chain[-1]
+    hist = [f"set {A} {rng.randint(0, 3)}", f"set {B} {rng.randint(0, 3)}"] + [f"set {w} {rng.randint(0, 1)}" for w in W]
+    first_roots = list(range(1, n + 1))
+    if rng.random() < 0.3: rng.shuffle(first_roots)
+    hist += ["session"] + [f"req {x}" for x in first_roots] + ["endsession"]
+    for _ in range(rng.randint(2, 4)):
+        changed = []
+        if rng.random() < 0.85: hist.append(f"set {A} {rng.randint(0, 5)}"); changed.append(A)
+        if rng.random() < 0.3: hist.append(f"set {B} {rng.randint(0, 5)}"); changed.append(B)
+        for w in W:
+            if rng.random() < 0.6: hist.append(f"set {w} {rng.randint(0, 1)}"); changed.append(w)
+        if gen and rng.random() < 0.15: hist.append(f"set {G} {rng.randint(0, 9)}"); changed.append(G)
+        if not changed: hist.append(f"set {A} {rng.randint(6, 9)}"); changed.append(A)
+        rng.shuffle(changed)
+        hist += ["session", "bu " + " ".join(map(str, changed))]
+        for _ in range(rng.randint(0, 2)): hist.append(f"req {rng.randint(1, n)}")
+        hist += ["endsession", "session", "reqknown", "endsession", "cleanknown"]
+    return sorted(lines, key=lambda l: int(l.split()[1])) + hist
+
+
 def case_erosion(rng):
     """C05: chains reader -> mid -> ... -> generator in which an intermediate task drops its require (same output) so that
     the reader keeps a read of a generated resource without a path to the generator (finding K4), followed by builds
